@@ -53,7 +53,7 @@ REQUIRED_CLASSES = (['rx:' + k for k in ('gas', 'ads', 'ads_plain', 'ads_diss', 
                        'A:stick', 'A:gas', 'A:surf', 'A:ts_entropy', 'A:multi_site', 'A:no_ts', 'A:ts_G_method',
                        'n_surf:1', 'n_surf:2', 'n_surf:>=3',
                        'carry:er_reactant', 'carry:ads_reactant', 'carry:product', 'carry:n_sites',
-                       'carry:A_not_judged', 'elements:negative_count', 'elements:zero_count',
+                       'carry:density_would_differ', 'K4:one_char_lhs', 'elements:negative_count', 'elements:zero_count',
                        'elements:zero_everywhere', 'elements:E_last_mention_negative',
                        'elements:E_last_mention_positive', 'elements:negative_on_surface_species',
                        'species_order:creation', 'species_order:shuffled', 'species_order:reversed',
@@ -76,8 +76,8 @@ ASSUMPTIONS = [
     'both sides, phase letters are upper-case G / S (bulk species carry S and are recognised through '
     'CatSite.bulk_specie as in the bundled example), bulk species names are distinct between sites; gas species '
     'may carry a cat_site / n_sites (records made from one table) and stay gas species: n_surf and the effective '
-    'site density count only phase-S non-bulk reactants (A is not judged, only counted, when such a gas reactant '
-    'meets sden_operation sum / mean over several sites or carries a site foreign to the step); element counts '
+    'site density count only phase-S non-bulk reactants, for every sden_operation and also when the carried site is '
+    'foreign to the step; element counts '
     'may be negative (Chemkin electron element E: cation E -1, anion E +1, electron species E) or zero '
     '(zero-filled columns): ELEMENTS must list every key with a non-zero count in some species exactly once, a '
     'key that is zero in every species may be listed once or left out; species records in creation, reversed '
@@ -100,9 +100,7 @@ ASSUMPTIONS = [
     'numbers: token must be re-producible by the requested format string and |token - model| <= half a unit '
     'of the last printed place (+ 1e-4 relative for computed quantities: CODATA-2018 constants of '
     'vf/ref/units.py vs. pMuTT\'s table; + 1e-9 for transcribed ones)',
-    'K4 is not judged (counted in evidence.extra) for a file that contains a reaction whose whole left-hand side '
-    'is one character (H=HP+E): the unchanged read_reactions skips such lines (regex wants two characters '
-    'before the delimiter) -- reported as a genuine defect with fix proposal',
+    'K4 includes reaction lines whose whole left-hand side is one character (H=HP+E)',
     'K4 compares, per reaction, the reactant list and the first len(products) entries of the product list '
     'returned by read_reactions; surplus "products" are reported separately (what=arrhenius_columns) from a '
     'mismatch of the genuine ones (what=mismatch)',
@@ -110,8 +108,7 @@ ASSUMPTIONS = [
     'comment line, write_T_flow(conditions=...) being ignored, AttributeError -> Ea=0 on a species whose getter '
     'raises AttributeError (outside the Nasa-only quantifier)']
 TOL_COMPUTED = 1e-4
-# flip (or run with VERIF_C06_JUDGE_ONE_CHAR=1) once read_reactions accepts a one-character left-hand side
-JUDGE_ONE_CHAR_LHS = os.environ.get('VERIF_C06_JUDGE_ONE_CHAR', '') == '1'
+JUDGE_ONE_CHAR_LHS = True      # read_reactions must read 'H=HP+E ...' (whole left-hand side one character)
 TOL_COPIED = 1e-9
 KB_H = U.KB / U.H
 UNITS = ['kcal/mol', 'cal/mol', 'kJ/mol', 'J/mol', 'eV']
@@ -297,8 +294,16 @@ def directed(tier):
                                                        if x['role'] == 'ads'):
                 break
         for c in s['calls']['surf']:
-            c['sden'] = ['min', 'max', 'min'][j]
+            c['sden'] = ['min', 'max', 'sum'][j]
         D.append(s)
+    # 20: an ionisation step whose whole left-hand side is one character (H=HP+E), gas.inp on disk -> K4
+    for t in range(200):
+        rng = random.Random('C06-d20-%d' % t)
+        s = _case(rng, profile='gas', ts_mode='mixed', n_sites=1, n_rxn=8, max_species=14)
+        if any(len(r['reactants']) == 1 and r['reactants'][0][1] == 1 and len(r['reactants'][0][0]) == 1
+               for r in s['mech']['reactions']):
+            break
+    D.append(s)
     # 15: Reactions fed from a one-shot generator, 16: from a tuple
     for j, arg in enumerate(['generator', 'tuple']):
         rng = random.Random('C06-d15-%d' % j)
@@ -609,31 +614,20 @@ def _arrhenius(ctx, M, c, base, pairs, file):
             ctx.cls('carry:n_sites')
         if carried_r and kind == 'stick':
             ctx.cls('carry:ads_reactant')
-        judged = True
         if carried_r and kind == 'surf':
             # The model counts only species that sit on a site (phase S, not bulk), for the exponent and for
-            # the effective density alike.  The unchanged get_A takes the exponent that way (_get_n_surf) but
-            # lets a gas reactant that carries a cat_site into the density list: harmless when that site is
-            # one of the step's own sites and the operation is min / max (or mean on a single-site step) --
-            # judged; with sum, or a foreign site, the written A follows the inconsistent list -- counted as
-            # telemetry, reported as a genuine inconsistency of the unchanged tree, not judged.
+            # the effective density alike; a gas reactant stays a gas reactant whatever its record carries.
+            # Judged for every sden_operation and for a carried site foreign to the step as well.
             own = {M.sp[n]['site'] for n, _ in r['reactants'] if M.sp[n]['role'] in ('ads', 'vacant')}
-            judged = all(k in own for k in carried_r) and (c['sden'] in ('min', 'max') or
-                                                            (c['sden'] == 'mean' and len(own) == 1))
+            easy = all(k in own for k in carried_r) and (c['sden'] in ('min', 'max') or
+                                                          (c['sden'] == 'mean' and len(own) == 1))
             mA['gas_reactant_carries_site'] = True
-            if judged:
-                ctx.cls('carry:er_reactant')
-            else:
-                ctx.cls('carry:A_not_judged')
-                tele = ctx.extra.setdefault('A_when_gas_reactant_carries_site_and_sum_or_foreign_site', {})
-                try:
-                    same = abs(CK.to_float(e['A']) - A) <= CK.quantum(e['A']) * 1.000001 + 1e-4 * abs(A)
-                except ValueError:
-                    same = False
-                tele['equal_to_model' if same else 'differs_from_model'] = \
-                    tele.get('equal_to_model' if same else 'differs_from_model', 0) + 1
-        if judged:
-            _num(ctx, e['A'], A, c['ff'], mA, TOL_COPIED if kind == 'stick' else TOL_COMPUTED, reaction=e['expr'])
+            ctx.cls('carry:er_reactant')
+            if not easy:
+                # the carried density would change the effective density if it were (wrongly) counted
+                ctx.cls('carry:density_would_differ')
+                mA['carried_density_matters'] = True
+        _num(ctx, e['A'], A, c['ff'], mA, TOL_COPIED if kind == 'stick' else TOL_COMPUTED, reaction=e['expr'])
         # beta
         _num(ctx, e['beta'], float(r['beta']), c['ff'], dict(base, rule='K3', field='beta'), TOL_COPIED,
              reaction=e['expr'])
@@ -969,20 +963,8 @@ def check_K4(ctx, M, path, file, text_reactions):
     from pmutt.io import chemkin as ck
     base = {'file': file, 'rule': 'K4'}
     one_char = [e for e in text_reactions if len(e['expr'].split('=')[0].rstrip('<')) == 1]
-    if one_char and not JUDGE_ONE_CHAR_LHS:
-        # Unchanged tree: read_reactions recognises a reaction line with '(^[^!].+)(delimiter)', i.e. it wants
-        # two characters before a delimiter, and silently skips 'H=HP+E ...' (unless a minus sign further
-        # right happens to match).  Reported as a genuine reader defect with a one-character fix; files with
-        # such a line are counted here and not judged, so that the rest of K4 stays decidable.
-        tele = ctx.extra.setdefault('K4_files_with_one_character_left_hand_side', {})
-        tele['files'] = tele.get('files', 0) + 1
-        try:
-            got = ck.read_reactions(path)
-            tele['reaction_lines_lost'] = tele.get('reaction_lines_lost', 0) + max(0, len(text_reactions) - len(got[1]))
-        except Exception as ex:                           # noqa
-            tele['raises_' + type(ex).__name__] = tele.get('raises_' + type(ex).__name__, 0) + 1
-        ctx.cls('K4:one_char_lhs_not_judged')
-        return
+    if one_char:
+        ctx.cls('K4:one_char_lhs')           # 'H=HP+E ...': whole left-hand side is one character
     out = _call(ctx, 'K4', dict(base, field='read', species_arg=False), ck.read_reactions, path)
     if out is not core.NOVALUE:
         ok = isinstance(out, tuple) and len(out) == 5
